@@ -6,6 +6,7 @@ import Ampy.Spec.C18
 import Ampy.Driver.Scene
 import Ampy.Driver.Run
 import Ampy.Driver.Screen
+import Ampy.Driver.Hist
 /-
 Model driver: one request per input line, one canonical answer per output line.
 Run as a compiled executable (`lake build ampydrv`) or with `lake env lean --run Main.lean`.
@@ -25,6 +26,7 @@ def handle (line : String) : String :=
   | "MET" :: rest => handleMet rest
   | "RUN" :: rest => handleRun rest
   | "SCREEN" :: rest => handleScreen rest
+  | "HIST" :: rest => handleHist rest
   | "SPEC17" :: rest =>
     -- SPEC17 o1 o2 ... | TFTF
     match splitTok "|" rest with
